@@ -312,7 +312,11 @@ Plan gen(uint64_t seed, int tier) {
   bool burst = r.chance(0.8);
   double pctl = r.pick({0.0, 0.0, 0.01, 0.03}), plose = r.pick({0.0, 0.0, 0.3});
   int64_t last_amp = 0;
+  // DTX switched exactly at a burst / gap boundary ("enable DTX when the user mutes", "disable it while talking"): what the inactivity
+  // clocks accumulated while the switch was in its other position must not count
+  double pboundary = r.pick({0.0, 0.0, 0.4});
   while (t < total48) {
+    if (t > 0 && r.chance(pboundary)) { p.ops.push_back(mkop("CTL", {OPUS_SET_DTX_REQUEST, burst ? r.pick({0, 0, 1}) : r.pick({1, 1, 0})})); }
     // one segment: burst or gap, 0..5 s (biased to the timer constants)
     int64_t seg = (int64_t)r.pick({100, 190, 200, 210, 400, 600, 610, 800, 1000, 1500, 2500, (int)r.range(0, 5000)}) * 48;
     if (burst) {
